@@ -40,9 +40,11 @@ ASSUMPTIONS = [
     'another container is not generated',
 ]
 TRUSTED = ['pbt/c13sim.py']
-BUDGET = {'quick': 9600, 'thorough': 192000}
+BUDGET = {'quick': 3200, 'thorough': 192000}
 
-KINDS = ['exitinfo', 'aborted', 'oom', 'pid1']
+# 'killed' (no flag file at all) is kept out of the first three: 'exit' takes
+# KINDS[:3] + killed, 'finish' any
+KINDS = ['exitinfo', 'aborted', 'oom', 'pid1', 'killed', 'killed']
 
 
 def _weighted(draw, choices):
@@ -70,8 +72,18 @@ def _case(draw):
     evicted = None      # instance index of the last 'del'
     # aimed openings: nothing / a running instance / an old generation in
     # cleanup next to the new one / a container that finished on its own
-    opening = draw(st.sampled_from([0, 1, 2, 2, 3, 4]))
-    if opening:
+    opening = draw(st.sampled_from([0, 1, 2, 2, 3, 4, 5]))
+    if opening == 5:
+        # the synchronisation configures X, its created event is still queued
+        # when the container dies
+        ops += [['ready', 1], ['put', 0, 1], ['deliver', 1],
+                ['finish', 0, draw(st.sampled_from(KINDS))]]
+        cached.add(0)
+        placed.add(0)
+        ready = active = True
+        pending = 1
+        handed = 1
+    elif opening:
         ops += [['put', 0, 1], ['ready', 1], ['deliver', 99]]
         cached.add(0)
         placed.add(0)
@@ -140,7 +152,7 @@ def _case(draw):
             ops.append(['finish', pick[1], draw(st.sampled_from(KINDS))])
             handed += 1
         elif kind == 'exit':
-            ops.append(['exit', pick[1], draw(st.sampled_from(KINDS[:3]))])
+            ops.append(['exit', pick[1], draw(st.sampled_from(KINDS[:3] + ['killed']))])
             waiting.add(pick[1])
         elif kind == 'tomb':
             ops.append(['tomb', pick[1]])
@@ -224,6 +236,10 @@ def fixed_cases():
         ('late-created-event-after-finish', {'salt': 0, 'ops': [
             ['ready', 1], ['put', 0, 1], ['deliver', 1],
             ['finish', 0, 'oom'], ['deliver', 99]]}),
+        # the same with a container that was killed: no flag file at all
+        ('late-created-event-after-flagless-death', {'salt': 0, 'ops': [
+            ['ready', 1], ['put', 0, 1], ['deliver', 1],
+            ['finish', 0, 'killed'], ['deliver', 99]]}),
         # reboot, cache rewritten, reboot again: both generations on disk
         # without links
         ('reboot-rewrite-reboot', {'salt': 0, 'ops': running + [
